@@ -146,3 +146,23 @@ def build_mini(f):
     g.tags.append(tag)
     b.metadata = sec
     return f
+
+
+def build_xmini(f):
+    """mini + a second block; multi tags whose positions / extents are arrays of the OTHER block (the
+    library does not restrict these two links to the tag's block), each also member of a group"""
+    build_mini(f)
+    b = f.blocks["blk"]
+    a = f.create_block("Ablk", "blocktype")
+    apos = a.create_data_array("pos", "positions", data=np.array([[0.0, 1.0], [1.0, 0.0]]))
+    asig = a.create_data_array("sig", "signal", data=np.array([[5.0, 6.0], [7.0, 8.0]]))
+    mt = b.create_multi_tag("mt", "mtagtype", apos)          # positions in the other block
+    mt.extents = asig                                         # extents in the other block
+    mt.references.append(b.data_arrays["sig"])
+    b.groups["grp"].multi_tags.append(mt)
+    amt = a.create_multi_tag("mt", "mtagtype", b.data_arrays["sig"])   # and the other way round
+    amt.extents = apos                                        # own block
+    ag = a.create_group("grp", "grouptype")
+    ag.multi_tags.append(amt)
+    ag.data_arrays.append(apos)
+    return f
